@@ -3,8 +3,10 @@ package c06
 import (
 	"bytes"
 	"crypto/ecdh"
+	"crypto/elliptic"
 	"crypto/mlkem"
 	"fmt"
+	"math/big"
 	"os"
 	"os/exec"
 	"path/filepath"
@@ -58,6 +60,34 @@ func pubOfScalar(curve string, sk []byte) []byte {
 		panic(err)
 	}
 	return k.PublicKey().Bytes()
+}
+
+// negY returns the uncompressed encoding of -P for the uncompressed point P:
+// a valid point with the same x coordinate (hence the same ECDH output).
+func negY(curve string, pt []byte) []byte {
+	var c elliptic.Curve
+	switch curve {
+	case "p256":
+		c = elliptic.P256()
+	case "p384":
+		c = elliptic.P384()
+	default:
+		c = elliptic.P521()
+	}
+	n := (len(pt) - 1) / 2
+	y := new(big.Int).SetBytes(pt[1+n:])
+	y.Sub(c.Params().P, y)
+	out := append([]byte{}, pt[:1+n]...)
+	return append(out, y.FillBytes(make([]byte, n))...)
+}
+
+// X25519 public values of small order (X25519 rejects them: all-zero output)
+var x25519LowOrder = []string{
+	"0000000000000000000000000000000000000000000000000000000000000000",
+	"0100000000000000000000000000000000000000000000000000000000000000",
+	"e0eb7a7c3b41b8ae1656e3faf19fc46ada098deb9c32b1fd866205165f49b800",
+	"5f9c95bca3508c24b1d0b1559c83ef5b04445cc4581c8e86d8224eddd09f1157",
+	"ecffffffffffffffffffffffffffffffffffffffffffffffffffffffffffff7f",
 }
 
 func hpkeValidSK(r *hx.Rng, kem string) []byte {
@@ -251,12 +281,22 @@ func genHPKE(r *hx.Rng, suite string) string {
 		otherHeader = func() []byte { return mlct(kem, pk) }
 	case "xwing":
 		eph = append(r.Bytes(32), mlct("mlkem768", pk[:1184])...)
-		otherHeader = func() []byte { return append(mlct("mlkem768", pk[:1184]), pubOfScalar("x25519", r.Bytes(32))...) }
+		otherHeader = func() []byte {
+			if r.Chance(30) { // genuine ML-KEM part, small-order X25519 part
+				return append(append([]byte{}, tc[len(p.priv.OutputPrefix()):len(p.priv.OutputPrefix())+1088]...), hx.UH(hx.PickS(r, x25519LowOrder))...)
+			}
+			return append(mlct("mlkem768", pk[:1184]), pubOfScalar("x25519", r.Bytes(32))...)
+		}
 	case "x25519":
 		eph = r.Bytes(32)
 		t := r.Bytes(64)
 		ft, feph = hx.H(t), hx.H(t[:32])
-		otherHeader = func() []byte { return pubOfScalar("x25519", r.Bytes(32)) }
+		otherHeader = func() []byte {
+			if r.Chance(40) {
+				return hx.UH(hx.PickS(r, x25519LowOrder))
+			}
+			return pubOfScalar("x25519", r.Bytes(32))
+		}
 	default:
 		eph = validScalar(r, kem)
 		// constant-byte tape: the scalar drawn by ecdh.GenerateKey does not depend
@@ -266,7 +306,21 @@ func genHPKE(r *hx.Rng, suite string) string {
 		if err == nil {
 			ft, feph = hx.H(t), hx.H(k.Bytes())
 		}
-		otherHeader = func() []byte { return pubOfScalar(kem, validScalar(r, kem)) }
+		otherHeader = func() []byte {
+			np := len(p.priv.OutputPrefix())
+			switch r.Intn(4) {
+			case 0: // -enc: same ECDH x coordinate, another encapsulated key
+				return negY(kem, tc[np:np+hpkeNenc[kem]])
+			case 1: // not on the curve
+				b := append([]byte{4}, r.Bytes(hpkeNenc[kem]-1)...)
+				if kem == "p521" {
+					b[1] &= 1
+					b[1+66] &= 1
+				}
+				return b
+			}
+			return pubOfScalar(kem, validScalar(r, kem))
+		}
 	}
 	muts := genMuts(r, tc, info, len(p.priv.OutputPrefix()), hpkeNenc[kem], func() []byte { return hpkeValidSK(r, kem) }, otherHeader)
 	return fmt.Sprintf("C06|H|%s|%d|%s|%s|%s|%s|%s|!|%s|%s|%s", suite, id, hx.H(sk), hx.H(info), hx.H(pt), hx.H(tc), hx.H(eph), ft, feph, muts)
